@@ -47,3 +47,13 @@ PROPS["C13"] = {
   "components": {"real": REAL_LIB, "stub": ["YR_MEMORY_BLOCK_ITERATOR (harness iterator: partition, not-ready plan, failed fetch)", "open/fstat/fstatfs/mmap/munmap/close error injection and ledgers (real syscalls underneath)"]},
   "assumptions": ["exhaustive over not-ready subsets only up to 5 blocks", "the reference for an interrupted scan is the uninterrupted scan of the same partition (matches spanning a block border are out of scope for both)"],
 }
+
+PROPS["C11"] = {
+  "engine": "sim_protocol", "variant": "asan", "level": "fault_enumeration",
+  "parts": [{}],
+  "budget_quick": 60, "budget_thorough": 1500,
+  "exhaustive_quick": False,
+  "rule": "one run = (generated rule set of 1-10 rules over 1-3 namespaces spread over 1-5 source units that revisit namespaces, each rule ordinary/global/private/global+private, conditions over {true,false,own string planted or not,undefined,not,and,or,references to earlier rules,module calls with known value}, 0-4 imports per unit incl. repeated imports, optional console.log; report flags in {0,MATCHING,NOT_MATCHING,both}; reply plan = CONTINUE everywhere or ABORT/ERROR at message k). For each rule set and flag setting EVERY k of the model trace and both replies are run (ABORT only on rule messages, ERROR on rule and module messages; unspecified positions are not injected). Oracle: executable model of the protocol (Appendix A.1): observed message sequence == model prefix through k, return code == model's. Non-trivial = a reply other than CONTINUE was injected; distinct = distinct (rule set, flags, k, reply).",
+  "components": {"real": REAL_LIB, "stub": ["scan callback (consumer behaviour: reply plan)", "model evaluator for the generated condition language (oracle)"]},
+  "assumptions": ["ABORT in reply to a module message, and any reply to CONSOLE_LOG / SCAN_FINISHED, are unspecified by the property and not injected", "the model evaluates only the generated condition language; other condition features are C04 territory"],
+}
